@@ -253,6 +253,7 @@ Definition callees_ok (G : pkg) (ms : list method) : Prop :=
 Lemma field_stmt_not_star : forall G vis f t s dep, field_stmt all_fixed G vis f t = Ok (s, dep) -> s <> SStar.
 Proof.
   intros G vis f t s dep H. destruct t as [n|e|k e|n args| | |n|ms];
+    try rewrite field_stmt_fixed_error in H;
     cbn [field_stmt all_fixed fx_iface fx_nilpkg fx_mapptr andb] in H; try (inversion H; subst; discriminate).
   - destruct (is_iface (lookup G n)); [inversion H; subst; discriminate|].
     destruct (scan (hand_of (lookup G n) ++ sigs_of vis n)) as [[a b] c].
@@ -448,7 +449,7 @@ Section Field.
           -- apply (Hfi dc eq_refl Hkd).
           -- exists x', t1. rewrite Hex. cbn [bind]. split; [reflexivity|]. split; [|exact Hlo].
              rewrite Hsn. apply snapshot_ext. exact Hval.
-    - (* error *) inversion Hs; subst. apply Hassign; [|reflexivity]. destruct x; cbn in Hw; try contradiction; reflexivity.
+    - (* error *) rewrite field_stmt_fixed_error in Hs. inversion Hs; subst. apply Hassign; [|reflexivity]. destruct x; cbn in Hw; try contradiction; reflexivity.
     - (* any / interface literal *) inversion Hs; subst. apply Hassign; [|reflexivity]. destruct x; cbn in Hw; try contradiction; reflexivity.
     - (* type parameter *) inversion Hs; subst. apply Hassign; [|reflexivity]. destruct x; cbn in Hw; try contradiction; reflexivity.
     - (* named type of another package *)
